@@ -391,6 +391,11 @@ def run(tier):
                                      'C/H/V = getCardinalDir/areHAligned/areVAligned; T = transform; D = dump' % ','.join(SD),
                         'matches_old_stale_flag_model': pc[i] == po[i],
                         'replay': 'harness/c18_sep.cpp ops <file with "N" + the ops>'}
+        if i < n_exh and len(pc[i]) >= 2 and flip_bad is None:
+            c1, c2 = pc[i][-2], pc[i][-1]
+            if c1[:2] == 'C ' and c2[:2] == 'C ' and {'E': 'W', 'W': 'E', 'S': 'N', 'N': 'S'}.get(c1[2], c1[2]) != c2[2]:
+                flip_bad = {'what': 'getCardinalDir(b,a) is not the opposite of getCardinalDir(a,b) on the real SepMatrix',
+                            'ops': s, 'results': pc[i], 'replay': 'harness/c18_sep.cpp ops <file with "N" + the ops>'}
         if pc[i] != pm[i]:
             if pc[i] == po[i]:
                 stale_like += 1
@@ -493,3 +498,33 @@ def replay(path):
 def warm():
     C.build_harness('c18_sep', LIBS, 'plain')
     C.ocaml_build('c18', 'C18.v', 'c18_driver.ml', 'c18_model.ml')
+
+
+META = {
+    'property_id': PID,
+    'level_claimed': {
+        'category': 'proof',
+        'text': 'Coq theorems over a hand model of dialect::SepPair / SepMatrix with IEEE signed-zero gaps (sign bit + non-negative rational '
+                'magnitude), all symbolic in gaps, coordinates, sizes and the extra boundary gap: transform_commutes (placement satisfies pair '
+                'iff transformed placement, sizes swapped for axis-swapping transforms, satisfies transformed pair; all 7 transforms, all kinds, '
+                'both zeros, negative gaps), transform_group (the action on all six fields incl. sign bits is a group action of D4, product = '
+                '2x2 matrix product; four quarter turns / double flips = identity), flip_equiv (storing c under (a,b) and the negated c under '
+                '(b,a) leave identical stored pairs for any prior matrix; refuted for the pre-88a99a7 stale-flag getSepPair), '
+                'getCardinalDir_flip, addSep_meaning, gen_constraint_sound (generated vpsc constraint <-> boundary-based meaning, both dims, '
+                'BDRY adds half extents + extra gap), tglf_sep_roundtrip at token level (write_sep then read_sep keeps the meaning, also with '
+                'the reader\'s ids reversed) and tglf_rejected_iff (exactly the coinciding pairs are rejected). Tie: exhaustive correspondence '
+                'of the model with the compiled library on every run (576 states x 7 transforms / 49 pairs / 192 requests, SepMatrix op '
+                'sequences, generated constraints) plus the property oracles run on the real outputs.',
+        'design_ref': 'DESIGN.md 5.18'},
+    'level_note': 'SepPair::transform could not be obtained through cpp2v (no switch / std::swap in its fragment, double->Q loses the sign bit): '
+                  'it is hand-modelled and tied by the exhaustive field-by-field correspondence instead. Trusted: Coq kernel; the hand model '
+                  '(SepPairModel.v) as far as not covered by the exhaustive sweep (gap magnitudes other than 0, 2 are covered only by the random '
+                  'placements); extraction + OCaml/C++ drivers; exact-rational model of binary64 on multiples of 0.25. Assumed, not proved '
+                  '(Section hypotheses of tglf_sep_roundtrip): parse_fmt = "%.3f" then operator>> returns the written non-negative value with a '
+                  'clear sign bit, parse_zero = "0" reads as +0.0. V-only (verified checker sep_equivb_sound on real outputs, not a proof of the '
+                  'code): Graph::writeTglf -> buildGraphFromTglf on random graphs incl. node/edge/route sections. Not covered: extraBdryGap < 0 '
+                  '(the writer would print a negative number and the reader would reverse the direction); Graph::rotate90cw itself does not '
+                  'swap node dimensions (documented in graphs.cpp), so for non-square nodes with BDRY gaps it preserves satisfaction only '
+                  'after the following destress.',
+    'technique': 'Coq proof over a hand-written Gallina model + exhaustive finite correspondence with the compiled C++ + verified checkers on real outputs',
+}
